@@ -689,3 +689,15 @@ M('tridiageigen-zero-matrix-guard-removed', 'C09', 'scale-divisor-guarded',
   [('LinAlg/TridiagEigen.h', 'if (scale < near_0)\n', 'if (false && scale < near_0)\n')], 'the sibling guard')
 M('hessenberg-norm-skips-last-column', 'C09', 'zero-matrix-test-covers-all-entries',
   [('LinAlg/UpperHessenbergSchur.h', 'for (Index j = 0; j < n; j++)\n            norm +=', 'for (Index j = 0; j < n - 1; j++)\n            norm +=')], 'the last column is left out of the norm')
+
+M('arnoldi-reorth-keeps-stale-norm', 'C07,C01', 'residual-norm-tracks-residual',
+  [('LinAlg/Arnoldi.h', '''                m_fac_f.noalias() -= Vs * Vf.head(i1);
+                // h <- h + Vf
+                h.noalias() += Vf.head(i1);
+                // beta <- ||f||
+                m_beta = m_op.norm(m_fac_f);''', '''                m_fac_f.noalias() -= Vs * Vf.head(i1);
+                // h <- h + Vf
+                h.noalias() += Vf.head(i1);''')], 'norm of the residual before re-orthogonalisation is kept')
+M('arnoldi-compress-forgets-norm', 'C07,C01', 'residual-norm-tracks-residual',
+  [('LinAlg/Arnoldi.h', '''        m_fac_f.swap(fk);
+        m_beta = m_op.norm(m_fac_f);''', '''        m_fac_f.swap(fk);''')], 'after an implicit restart the convergence test uses the old residual norm')
